@@ -141,6 +141,13 @@ func (g *generator) next() op {
 		o := op{Kind: "register", Addr: firstNodeOwn + g.rnd(3), Amount: uint32(10000 + 500*g.rnd(40))}
 		if free := g.freePeers(); len(free) > 0 && g.rnd(6) != 0 {
 			o.Peer = free[g.rnd(len(free))]
+			// a pubkey that was registered before: half of the time its former owner, who may still
+			// hold an authorize record (unfrozen init pos not withdrawn), registers it again
+			for _, i := range g.o.Infos {
+				if i.Peer == o.Peer && i.Addr >= genesisOwnerA && i.Addr < firstAuth && g.rnd(2) == 0 {
+					o.Addr = i.Addr
+				}
+			}
 		} else {
 			o.Peer = g.rnd(nPeer + 1)
 		}
@@ -373,6 +380,9 @@ func (g *generator) generate() *history {
 		if g.split && g.rnd(5) == 0 && g.topUpThenUnauthorizeMore() {
 			continue
 		}
+		if g.rnd(14) == 0 && g.ownerRecordThenQuit() {
+			continue
+		}
 		if g.regime == "approve" {
 			if pend := g.pending(); len(pend) > 0 && g.rnd(3) == 0 {
 				p := pend[g.rnd(len(pend))]
@@ -438,6 +448,61 @@ func (g *generator) topUpThenUnauthorizeMore() bool {
 	more := uint32(500 * (1 + uint64(g.rnd(int((i.B[0]+i.B[1])/500)))))
 	g.push(op{Kind: "authorize", Signer: i.Addr, Addr: i.Addr, Peers: []int{i.Peer}, Pos: []uint32{n}})
 	g.push(op{Kind: "unauthorize", Signer: i.Addr, Addr: i.Addr, Peers: []int{i.Peer}, Pos: []uint32{n + more}})
+	return true
+}
+
+// ownerRecordThenQuit: a node whose owner already holds an authorize record for it (init pos added
+// and reduced again; or left over from an earlier registration of the same pubkey), with
+// authorizers whose addresses sort before AND after the owner's, quits; two or three epochs pass and
+// the owner withdraws everything that is unfrozen, then tries a little more.
+func (g *generator) ownerRecordThenQuit() bool {
+	active := g.poolWith(func(p *peerObs) bool { return isActive(p) })
+	if len(active) <= 7 {
+		return false
+	}
+	var nodes []peerObs
+	for _, p := range active {
+		if p.Owner >= firstNodeOwn && p.Owner < firstAuth {
+			nodes = append(nodes, p)
+		}
+	}
+	if len(nodes) == 0 {
+		return false
+	}
+	p := nodes[g.rnd(len(nodes))]
+	own := p.Owner
+	g.push(op{Kind: "maxauth", Signer: own, Addr: own, Peer: p.Peer, Amount: uint32(10 * p.Init)})
+	up := uint32(500 * (1 + g.rnd(4)))
+	g.push(op{Kind: "addinit", Signer: own, Addr: own, Peer: p.Peer, Amount: up})
+	g.push(op{Kind: "reduceinit", Signer: own, Addr: own, Peer: p.Peer, Amount: 1 + uint32(g.rnd(int(up)))})
+	before := genesisOwnerA + g.rnd(2) // sorts before every node owner
+	after := firstAuth + g.rnd(3)      // sorts after every node owner
+	switch g.rnd(4) {
+	case 0: // only before
+		after = 0
+	case 1: // only after
+		before = 0
+	}
+	if before != 0 {
+		g.push(op{Kind: "authorize", Signer: before, Addr: before, Peers: []int{p.Peer}, Pos: []uint32{uint32(500 * (1 + g.rnd(4)))}})
+	}
+	if after != 0 {
+		g.push(op{Kind: "authorize", Signer: after, Addr: after, Peers: []int{p.Peer}, Pos: []uint32{uint32(500 * (1 + g.rnd(4)))}})
+	}
+	g.push(op{Kind: "quit", Signer: own, Addr: own, Peer: p.Peer})
+	for i, n := 0, 2+g.rnd(2); i < n; i++ {
+		g.push(op{Kind: "commit", Signer: idAdmin})
+	}
+	var unf uint64
+	for _, i := range g.o.Infos {
+		if i.Peer == p.Peer && i.Addr == own {
+			unf = i.B[5]
+		}
+	}
+	if unf > 0 && unf < 1<<32 {
+		g.push(op{Kind: "withdraw", Signer: own, Addr: own, Peers: []int{p.Peer}, Pos: []uint32{uint32(unf)}})
+	}
+	g.push(op{Kind: "withdraw", Signer: own, Addr: own, Peers: []int{p.Peer}, Pos: []uint32{uint32(1 + g.rnd(20000))}})
 	return true
 }
 
@@ -528,5 +593,54 @@ func probes() []*history {
 		op{Kind: "commit", Signer: 1},
 		op{Kind: "withdraw", Signer: 4, Addr: 4, Peers: []int{1}, Pos: []uint32{11000}}, // paid out of the other node's stake
 	)
-	return []*history{p1, p2, p3, p4}
+	// normalQuit with a pre-existing record of the owner: the owner (5) holds two nodes (8, 9); init pos
+	// of node 8 is added and reduced (owner record), authorizers sort before (4) and after (8) the
+	// owner; the node quits, epochs pass, the owner withdraws all that is unfrozen (init pos once) and
+	// then tries to take out the init pos of its other, live node.
+	quitProbe := func(owner, peer int, auths []int) *history {
+		ops := []op{
+			{Kind: "register", Signer: owner, Addr: owner, Peer: peer, Amount: 30000},
+			{Kind: "register", Signer: owner, Addr: owner, Peer: peer + 1, Amount: 20000},
+			{Kind: "maxauth", Signer: owner, Addr: owner, Peer: peer, Amount: 100000},
+		}
+		for _, a := range auths {
+			ops = append(ops, op{Kind: "authorize", Signer: a, Addr: a, Peers: []int{peer}, Pos: []uint32{1000}})
+		}
+		ops = append(ops,
+			op{Kind: "addinit", Signer: owner, Addr: owner, Peer: peer, Amount: 2000},
+			op{Kind: "commit", Signer: 1},
+			op{Kind: "reduceinit", Signer: owner, Addr: owner, Peer: peer, Amount: 1000},
+			op{Kind: "quit", Signer: owner, Addr: owner, Peer: peer},
+			op{Kind: "commit", Signer: 1},
+			op{Kind: "commit", Signer: 1},
+			op{Kind: "commit", Signer: 1},
+			op{Kind: "withdraw", Signer: owner, Addr: owner, Peers: []int{peer}, Pos: []uint32{32000}}, // 31000 init pos + 1000 reduced
+			op{Kind: "withdraw", Signer: owner, Addr: owner, Peers: []int{peer}, Pos: []uint32{20000}}, // nothing left: must fail
+		)
+		return seq(base(late), ops...)
+	}
+	p5 := quitProbe(5, 8, []int{4, 8}) // owner's record in the middle
+	p6 := quitProbe(5, 8, []int{8, 9}) // first
+	p7 := quitProbe(7, 8, []int{3, 5}) // last
+	// the same pubkey registered again by an owner who did not withdraw all of the unfrozen init pos
+	p8 := seq(base(late),
+		op{Kind: "register", Signer: 6, Addr: 6, Peer: 10, Amount: 10000},
+		op{Kind: "register", Signer: 6, Addr: 6, Peer: 11, Amount: 25000},
+		op{Kind: "maxauth", Signer: 6, Addr: 6, Peer: 10, Amount: 50000},
+		op{Kind: "authorize", Signer: 9, Addr: 9, Peers: []int{10}, Pos: []uint32{500}},
+		op{Kind: "quit", Signer: 6, Addr: 6, Peer: 10},
+		op{Kind: "commit", Signer: 1},
+		op{Kind: "commit", Signer: 1},
+		op{Kind: "withdraw", Signer: 6, Addr: 6, Peers: []int{10}, Pos: []uint32{4000}},
+		op{Kind: "register", Signer: 6, Addr: 6, Peer: 10, Amount: 12000},
+		op{Kind: "maxauth", Signer: 6, Addr: 6, Peer: 10, Amount: 50000},
+		op{Kind: "authorize", Signer: 9, Addr: 9, Peers: []int{10}, Pos: []uint32{1000}},
+		op{Kind: "commit", Signer: 1},
+		op{Kind: "quit", Signer: 6, Addr: 6, Peer: 10},
+		op{Kind: "commit", Signer: 1},
+		op{Kind: "commit", Signer: 1},
+		op{Kind: "withdraw", Signer: 6, Addr: 6, Peers: []int{10}, Pos: []uint32{18000}}, // 6000 left over + 12000
+		op{Kind: "withdraw", Signer: 6, Addr: 6, Peers: []int{10}, Pos: []uint32{12000}}, // must fail
+	)
+	return []*history{p1, p2, p3, p4, p5, p6, p7, p8}
 }
